@@ -149,9 +149,23 @@ func Run(req Request, kinds map[string]KindInfo, resps []Response) Verdict {
 		v.Views = append(v.Views, view)
 
 		if req.Kind == "create" {
+			// A lone command-line marker (UpdateArgs with no arguments: nothing is set after it) carries no
+			// command line; like an empty argument list it requests no change - nothing is released, claimed,
+			// removed or shown differently.
+			loneArgs := func(op Op) bool {
+				if !op.Remove || op.Item.Kind != "args" {
+					return false
+				}
+				for _, o2 := range r.Adjust {
+					if !o2.Remove && o2.Item == op.Item {
+						return false
+					}
+				}
+				return true
+			}
 			// removals first: they release claims and delete values
 			for _, op := range r.Adjust {
-				if op.Remove {
+				if op.Remove && !loneArgs(op) {
 					delete(own(req.ID), op.Item)
 					if _, had := st.Cont[op.Item]; had {
 						delete(st.Cont, op.Item)
@@ -160,21 +174,6 @@ func Run(req Request, kinds map[string]KindInfo, resps []Response) Verdict {
 						st.Removed[op.Item] = true
 					}
 					st.Touched[op.Item] = true
-				}
-			}
-			// a lone command-line marker (UpdateArgs with no arguments: nothing is set after it) releases the
-			// earlier claim like any removal and makes this plugin the owner of the - now empty - command line
-			for _, op := range r.Adjust {
-				if op.Remove && op.Item.Kind == "args" {
-					lone := true
-					for _, o2 := range r.Adjust {
-						if !o2.Remove && o2.Item == op.Item {
-							lone = false
-						}
-					}
-					if lone {
-						own(req.ID)[op.Item] = p
-					}
 				}
 			}
 			for _, op := range r.Adjust {
